@@ -1,52 +1,170 @@
-(* Free theorems (Paramcoq): the exact rational run of the leapfrog model used by the
-   correspondence, wherever it is defined, IS the value of the real-valued model of the theorems. *)
-From Coq Require Import QArith Reals List.
+(* Free theorems (Paramcoq): the exact run of the leapfrog model used by the correspondence,
+   wherever it is defined, IS the value of the real-valued model of the theorems.
+   The run uses the gcd-free dyadic instance NumDy of model/M_lf_oracle.v (value m * 2^e): its
+   relation to NumR is proved here; the rational instance NumQ (base/ParamQ.v) is related too. *)
+From Coq Require Import QArith ZArith Reals Qreals List Lra Lia.
+From Bignums Require Import BigZ.
 From Param Require Import Param.
-From TT Require Import Num NumR NumQ ParamI ParamQ M_leapfrog.
+From TT Require Import Num NumR NumQ ParamI ParamQ M_leapfrog M_lf_oracle.
+
+Definition reld (r : R) (a : dy) : Type :=
+  match a with Some (m, e) => r = (IZR (BigZ.to_Z m) * powerRZ 2 e)%R | None => True end.
+
+Local Open Scope R_scope.
+Lemma two_neq0 : 2 <> 0. Proof. lra. Qed.
+Lemma IZR_pow2 k : (0 <= k)%Z -> IZR (2 ^ k) = powerRZ 2 k.
+Proof.
+  intros Hk. destruct k as [|p|p]; simpl; try lia.
+  - reflexivity.
+  - rewrite Zpower_pos_powerRZ. reflexivity.
+Qed.
+Lemma dshift_spec m k : (0 <= k)%Z -> BigZ.to_Z (dshift m k) = (BigZ.to_Z m * 2 ^ k)%Z.
+Proof.
+  intros Hk. unfold dshift. rewrite BigZ.spec_shiftl, BigZ.spec_of_Z. apply Z.shiftl_mul_pow2; auto.
+Qed.
+Lemma align m k e : (0 <= k)%Z -> IZR (BigZ.to_Z (dshift m k)) * powerRZ 2 e = IZR (BigZ.to_Z m) * powerRZ 2 (k + e).
+Proof.
+  intros Hk. rewrite dshift_spec by auto. rewrite mult_IZR, IZR_pow2 by auto.
+  rewrite powerRZ_add by apply two_neq0. ring.
+Qed.
+Lemma pos_log2_exact_spec p k : pos_log2_exact p = Some k -> (0 <= k)%Z /\ Zpos p = (2 ^ k)%Z.
+Proof.
+  revert k; induction p; simpl; intros k H; try discriminate.
+  - destruct (pos_log2_exact p) as [j|]; try discriminate. injection H as <-.
+    destruct (IHp j eq_refl) as [Hj E]. split; [lia|].
+    rewrite Z.pow_succ_r by auto. rewrite <- E. reflexivity.
+  - injection H as <-. split; [lia | reflexivity].
+Qed.
+Lemma powerRZ_sub3 a b c : powerRZ 2 (a - b - c) = powerRZ 2 a / (powerRZ 2 c * powerRZ 2 b).
+Proof.
+  assert (H : powerRZ 2 (a - b - c) * (powerRZ 2 c * powerRZ 2 b) = powerRZ 2 a).
+  { rewrite <- !powerRZ_add by apply two_neq0. f_equal. lia. }
+  rewrite <- H. field. split; apply powerRZ_NOR, two_neq0.
+Qed.
+
+Lemma NumRDy_R : Num_R R dy reld NumR NumDy.
+Proof.
+  constructor.
+  - unfold reld; cbn [zero NumDy]. rewrite BigZ.spec_0. simpl. ring.
+  - unfold reld; cbn [one NumDy]. rewrite BigZ.spec_1. simpl. ring.
+  - intros a [[m1 e1]|] Ha b [[m2 e2]|] Hb; unfold reld in *; cbn [add NumR NumDy d2] in *; auto.
+    destruct (e1 <=? e2)%Z eqn:E; [apply Z.leb_le in E | apply Z.leb_gt in E]; subst a b.
+    + rewrite BigZ.spec_add, plus_IZR, Rmult_plus_distr_r, align by lia.
+      replace (e2 - e1 + e1)%Z with e2 by lia. reflexivity.
+    + rewrite BigZ.spec_add, plus_IZR, Rmult_plus_distr_r, align by lia.
+      replace (e1 - e2 + e2)%Z with e1 by lia. reflexivity.
+  - intros a [[m1 e1]|] Ha b [[m2 e2]|] Hb; unfold reld in *; cbn [sub NumR NumDy d2] in *; auto.
+    destruct (e1 <=? e2)%Z eqn:E; [apply Z.leb_le in E | apply Z.leb_gt in E]; subst a b.
+    + rewrite BigZ.spec_sub, minus_IZR. unfold Rminus. rewrite Rmult_plus_distr_r, <- Ropp_mult_distr_l, align by lia.
+      replace (e2 - e1 + e1)%Z with e2 by lia. reflexivity.
+    + rewrite BigZ.spec_sub, minus_IZR. unfold Rminus. rewrite Rmult_plus_distr_r, <- Ropp_mult_distr_l, align by lia.
+      replace (e1 - e2 + e2)%Z with e1 by lia. reflexivity.
+  - intros a [[m1 e1]|] Ha b [[m2 e2]|] Hb; unfold reld in *; cbn [mul NumR NumDy dmul] in *; auto.
+    subst a b. rewrite BigZ.spec_mul, mult_IZR, powerRZ_add by apply two_neq0. ring.
+  - intros a [[m1 e1]|] Ha b [[m2 e2]|] Hb; unfold reld in *; cbn [div NumR NumDy ddiv] in *; auto.
+    destruct (BigZ.to_Z m2) as [|p|p] eqn:E2; auto.
+    + destruct (pos_log2_exact p) as [k|] eqn:Ek; auto.
+      destruct (pos_log2_exact_spec _ _ Ek) as [Hk Ep]. subst a b. rewrite Ep, IZR_pow2 by auto.
+      rewrite powerRZ_sub3. field. split; apply powerRZ_NOR, two_neq0.
+    + destruct (pos_log2_exact p) as [k|] eqn:Ek; auto.
+      destruct (pos_log2_exact_spec _ _ Ek) as [Hk Ep]. subst a b.
+      rewrite BigZ.spec_opp, opp_IZR.
+      change (Z.neg p) with (- Z.pos p)%Z. rewrite opp_IZR, Ep, IZR_pow2 by auto.
+      rewrite powerRZ_sub3. field. split; apply powerRZ_NOR, two_neq0.
+  - intros a [[m e]|] Ha; unfold reld in *; cbn [opp NumR NumDy dopp] in *; auto.
+    subst a. rewrite BigZ.spec_opp, opp_IZR. ring.
+  - intros p q Hq. apply Q_R_eq in Hq. subst. unfold reld; cbn [ofQ NumR NumDy]. unfold dofQ.
+    destruct (pos_log2_exact (Qden q)) as [k|] eqn:Ek; auto.
+    destruct (pos_log2_exact_spec _ _ Ek) as [Hk Ep].
+    rewrite BigZ.spec_of_Z. unfold Q2R. rewrite Ep, IZR_pow2 by auto.
+    replace (- k)%Z with (0 - 0 - k)%Z by lia. rewrite powerRZ_sub3. simpl. field.
+    apply powerRZ_NOR, two_neq0.
+  - intros a x Ha. exact I.
+  - intros a x Ha. exact I.
+  - intros a x Ha. exact I.
+  - intros a x Ha b y Hb. exact I.
+Qed.
+Local Close Scope R_scope.
 
 Parametricity Recursive mass qualified.
 Parametricity Recursive prod qualified.
 Parametricity Recursive leapfrog qualified.
+Parametricity Recursive leapfrog_trace qualified.
 Parametricity Recursive hmc_step qualified.
 Parametricity Recursive gauss_grad qualified.
 Parametricity Recursive gauss_leapfrog qualified.
+Parametricity Recursive gauss_trace qualified.
 Parametricity Recursive gauss_step qualified.
 
 Notation mass_R := TT_o_M_leapfrog_o_mass_R.
 Notation prod_R := Coq_o_Init_o_Datatypes_o_prod_R.
-Notation vrel := (list_R R qo relq).
+
+Section Tie.
+(* any instance related to NumR: used at (qo, relq, NumQ) and (dy, reld, NumDy) *)
+Variables (T : Type) (rel : R -> T -> Type) (N : Num T) (HN : Num_R R T rel NumR N).
+Notation vrel := (list_R R T rel).
 
 (* any target: related gradient functions give related results *)
-Lemma leapfrog_exact eps Eps L Minv MINV grad GRAD q Q p P :
-  relq eps Eps -> mass_R R qo relq Minv MINV ->
+Lemma leapfrog_tie eps Eps L Minv MINV grad GRAD q Q p P :
+  rel eps Eps -> mass_R R T rel Minv MINV ->
   (forall x X, vrel x X -> vrel (grad x) (GRAD X)) ->
   vrel q Q -> vrel p P ->
-  prod_R _ _ vrel _ _ vrel (leapfrog NumR eps Minv grad L (q, p)) (leapfrog NumQ Eps MINV GRAD L (Q, P)).
+  prod_R _ _ vrel _ _ vrel (leapfrog NumR eps Minv grad L (q, p)) (leapfrog N Eps MINV GRAD L (Q, P)).
 Proof.
   intros He Hm Hg Hq Hp.
-  apply (TT_o_M_leapfrog_o_leapfrog_R R qo relq NumR NumQ NumRQ_R eps Eps He Minv MINV Hm grad GRAD Hg
+  apply (TT_o_M_leapfrog_o_leapfrog_R R T rel NumR N HN eps Eps He Minv MINV Hm grad GRAD Hg
+           L L (nat_R_refl L)).
+  constructor; assumption.
+Qed.
+
+Lemma hmc_step_tie eps Eps L Minv MINV grad GRAD q Q p P :
+  rel eps Eps -> mass_R R T rel Minv MINV ->
+  (forall x X, vrel x X -> vrel (grad x) (GRAD X)) ->
+  vrel q Q -> vrel p P ->
+  prod_R _ _ vrel _ _ rel (hmc_step NumR eps L Minv grad q p) (hmc_step N Eps L MINV GRAD Q P).
+Proof.
+  intros He Hm Hg Hq Hp.
+  exact (TT_o_M_leapfrog_o_hmc_step_R R T rel NumR N HN eps Eps He L L (nat_R_refl L) Minv MINV Hm
+           grad GRAD Hg q Q Hq p P Hp).
+Qed.
+
+Lemma leapfrog_trace_tie eps Eps L Minv MINV grad GRAD q Q p P :
+  rel eps Eps -> mass_R R T rel Minv MINV ->
+  (forall x X, vrel x X -> vrel (grad x) (GRAD X)) ->
+  vrel q Q -> vrel p P ->
+  list_R _ _ vrel (leapfrog_trace NumR eps Minv grad L (q, p)) (leapfrog_trace N Eps MINV GRAD L (Q, P)).
+Proof.
+  intros He Hm Hg Hq Hp.
+  apply (TT_o_M_leapfrog_o_leapfrog_trace_R R T rel NumR N HN eps Eps He Minv MINV Hm grad GRAD Hg
            L L (nat_R_refl L)).
   constructor; assumption.
 Qed.
 
 (* Gaussian targets: the whole run, gradient included, is one polymorphic term *)
-Lemma gauss_leapfrog_exact eps Eps L Minv MINV A AA mu MU q Q p P :
-  relq eps Eps -> mass_R R qo relq Minv MINV ->
+Lemma gauss_step_tie eps Eps L Minv MINV A AA mu MU q Q p P :
+  rel eps Eps -> mass_R R T rel Minv MINV ->
   list_R _ _ vrel A AA -> vrel mu MU -> vrel q Q -> vrel p P ->
-  prod_R _ _ vrel _ _ vrel (gauss_leapfrog NumR eps L Minv A mu q p) (gauss_leapfrog NumQ Eps L MINV AA MU Q P).
+  prod_R _ _ vrel _ _ rel (gauss_step NumR eps L Minv A mu q p) (gauss_step N Eps L MINV AA MU Q P).
 Proof.
   intros He Hm HA Hmu Hq Hp.
-  exact (TT_o_M_leapfrog_o_gauss_leapfrog_R R qo relq NumR NumQ NumRQ_R eps Eps He L L (nat_R_refl L)
+  exact (TT_o_M_leapfrog_o_gauss_step_R R T rel NumR N HN eps Eps He L L (nat_R_refl L)
            Minv MINV Hm A AA HA mu MU Hmu q Q Hq p P Hp).
 Qed.
+Lemma gauss_leapfrog_tie eps Eps L Minv MINV A AA mu MU q Q p P :
+  rel eps Eps -> mass_R R T rel Minv MINV ->
+  list_R _ _ vrel A AA -> vrel mu MU -> vrel q Q -> vrel p P ->
+  prod_R _ _ vrel _ _ vrel (gauss_leapfrog NumR eps L Minv A mu q p) (gauss_leapfrog N Eps L MINV AA MU Q P).
+Proof.
+  intros He Hm HA Hmu Hq Hp.
+  exact (TT_o_M_leapfrog_o_gauss_leapfrog_R R T rel NumR N HN eps Eps He L L (nat_R_refl L)
+           Minv MINV Hm A AA HA mu MU Hmu q Q Hq p P Hp).
+Qed.
+End Tie.
 
-Lemma gauss_step_exact eps Eps L Minv MINV A AA mu MU q Q p P :
-  relq eps Eps -> mass_R R qo relq Minv MINV ->
-  list_R _ _ vrel A AA -> vrel mu MU -> vrel q Q -> vrel p P ->
-  prod_R _ _ vrel _ _ relq (gauss_step NumR eps L Minv A mu q p) (gauss_step NumQ Eps L MINV AA MU Q P).
-Proof.
-  intros He Hm HA Hmu Hq Hp.
-  exact (TT_o_M_leapfrog_o_gauss_step_R R qo relq NumR NumQ NumRQ_R eps Eps He L L (nat_R_refl L)
-           Minv MINV Hm A AA HA mu MU Hmu q Q Hq p P Hp).
-Qed.
-Print Assumptions gauss_step_exact.
+Definition gauss_step_dyadic := gauss_step_tie dy reld NumDy NumRDy_R.
+Definition gauss_leapfrog_dyadic := gauss_leapfrog_tie dy reld NumDy NumRDy_R.
+Definition leapfrog_dyadic := leapfrog_tie dy reld NumDy NumRDy_R.
+Definition hmc_step_dyadic := hmc_step_tie dy reld NumDy NumRDy_R.
+Definition leapfrog_trace_dyadic := leapfrog_trace_tie dy reld NumDy NumRDy_R.
+Definition leapfrog_rational := leapfrog_tie qo relq NumQ NumRQ_R.
+Print Assumptions gauss_step_dyadic.
